@@ -6,6 +6,8 @@ import re
 import numpy as np
 from hypothesis import strategies as st
 
+from mv import hperm
+
 from mv import gen_atoms, gen_geom, geom, model_atoms as M, ref_cif
 from mv.quiet import silenced
 from mv.runner import FuzzPart, HypPart, Violation
@@ -49,7 +51,7 @@ def rt_case(draw):
     spec["groups"] = [0] * len(spec["pos"])
     # torsion columns: one label set shared by dihedrals and impropers is what the format can carry
     spec["extra_improper_labels"], spec["extra_improper_fields"] = [], []
-    if draw(st.integers(0, 3)) == 0 and spec["pos"]:
+    if draw(hperm.integers(0, 3)) == 0 and spec["pos"]:
         # atoms exactly on the cell boundary
         C = np.array(spec["cell"])
         f = [draw(st.sampled_from([0.0, 1.0, 0.5])) for _ in range(3)]
@@ -238,13 +240,13 @@ P1_OK = ["P1", "P 1", None]
 def su(draw, v, digits=4):
     s = "%.*f" % (digits, v)
     if draw(st.booleans()):
-        s += "(%d)" % draw(st.integers(1, 99))
+        s += "(%d)" % draw(hperm.integers(1, 99))
     return s
 
 
 @st.composite
 def reader_case(draw):
-    n = draw(st.integers(1, 8))
+    n = draw(hperm.integers(1, 8))
     els = [draw(st.sampled_from(["C", "H", "O", "N", "Zr", "Cu"])) for _ in range(n)]
     a, b, c = [round(draw(st.floats(4.0, 20.0)), 4) for _ in range(3)]
     ck = draw(st.sampled_from(["ortho", "tri", "tri"]))
@@ -261,12 +263,12 @@ def reader_case(draw):
         fr.append(row)
     hm = draw(st.sampled_from(P1_OK * 12 + NON_P1))
     cellstr = [draw(su(v)) if use_su else "%.4f" % v for v in (a, b, c, al, be, ga)]
-    order = draw(st.permutations(range(6 + (1 if draw(st.booleans()) else 0))))
+    order = draw(hperm.permutations(range(6 + (1 if draw(st.booleans()) else 0))))
     bonds = []
     if n > 1:
-        for _ in range(draw(st.integers(0, 3))):
-            i = draw(st.integers(0, n - 1))
-            j = draw(st.integers(0, n - 1).filter(lambda x: x != i))
+        for _ in range(draw(hperm.integers(0, 3))):
+            i = draw(hperm.integers(0, n - 1))
+            j = draw(hperm.integers(0, n - 1).filter(lambda x: x != i))
             bonds.append([i, j])
     return {"els": els, "cellpar": [a, b, c, al, be, ga], "cellstr": cellstr, "coords": fr, "cart": cart, "su": use_su,
             "hm": hm, "order": list(order), "bonds": bonds, "header": draw(st.sampled_from(["2.0", "1.1", None])),
